@@ -696,3 +696,5 @@ UNITS = [
     ("C02.xss_assemblage_save.saves_the_solved_solid_solutions_under_the_requested_number", unit_xss_save),
     ("C02.solution_check.negative_element_total_rejects_the_step", unit_solution_check),
 ]
+
+from props.c02_ext2 import UNITS as _U2; UNITS = UNITS + _U2
